@@ -21,4 +21,4 @@ def add(run, tier):
     import contracts.unparse_walk as cw
     import contracts.dispatcher as cdisp
     wm = importlib.import_module('calmjs.parse.unparsers.walker')
-    verify_functions(run, [c for c in cb.build(bm, pm) if c.funcname.startswith('BaseUnparser.')] + cw.build(wm) + cdisp.build(wm), {}, {}, tier=tier)
+    verify_functions(run, [c for c in cb.build(bm, pm) if c.funcname.startswith('BaseUnparser.')] + cb.build_init(bm) + cw.build(wm) + cdisp.build(wm), {}, {}, tier=tier)
